@@ -459,7 +459,12 @@ func (b *BetweenExpr) SQL() string {
 
 func (s *SelectorExpr) SQL() string {
 	p := exprPrec(s)
-	return paren(p, s.Expr) + "." + s.Ident.SQL()
+	e := paren(p, s.Expr)
+	if _, ok := s.Expr.(*IntLiteral); ok {
+		// "1.a" would be lexed as the floating point literal "1." followed by an identifier.
+		e += " "
+	}
+	return e + "." + s.Ident.SQL()
 }
 
 func (i *IndexExpr) SQL() string {
